@@ -1,8 +1,11 @@
 #!/bin/bash
 # apply an arbitrary patch to /repo, run the given checks (quick), undo it
+# runs against a changed tree must not leave their evidence behind
+rm -rf /verif/.build/evidence.keep; cp -r /verif/evidence /verif/.build/evidence.keep
 patch=$1; shift
 git -C /repo apply "$patch" || { echo "patch does not apply"; exit 2; }
 cd /verif
 for c in "$@"; do echo "--- check $c with $patch"; ./check $c --tier quick 2>&1 | grep -E "^VIOLATION|^OK|MONITOR-FAIL|DIVERGE|GUARD" | head -6 | cut -c1-420; done
 git -C /repo checkout -- .
 git -C /repo status --short | grep -v '^??' | head -3
+rm -rf /verif/evidence; mv /verif/.build/evidence.keep /verif/evidence
